@@ -47,7 +47,7 @@ def instances(tier, seed):
     # (parents, counts, operator bond dimension): four nested operator applications are degree-4 polynomials in every operator entry
     pcs = [((0,), (2, 1), 2), ((0,), (1, 1), 2), ((0, 0), (1, 1, 1), 1), ((0, 1), (1, 1, 1), 1), ((0, 0), (0, 1, 1), 1)]
     if tier == "thorough":
-        pcs += [((0, 0), (1, 1, 1), 2), ((0, 1), (1, 1, 1), 2), ((0, 1, 1), (1, 0, 1, 1), 1), ((0, 0, 0), (0, 1, 1, 1), 1)]
+        pcs += [((0, 1, 1), (1, 0, 1, 1), 1), ((0, 0, 0), (0, 1, 1, 1), 1), ((0, 0, 1), (1, 1, 0, 1), 1)]      # (3 nodes with operator bond 2: memory cap)
     for par, cnt, ob in pcs:
         for imag in (False, True):
             out.append(dict(op="pc", kinds=kinds, parents=list(par), counts=list(cnt), imag=imag, obond=ob, run_opts=dict(budget_s=120.0), mem_gb=(8 if ob == 2 and len(cnt) > 2 else 3.5),
@@ -58,7 +58,7 @@ def instances(tier, seed):
     out.append(dict(op="pc_chain", label="linear tree P&C = chain Taylor(4) step", key="pc/chain"))
     sweeps = [((0,), (1, 1)), ((0, 0), (1, 1, 1)), ((0, 1), (1, 1, 1)), ((0, 0), (0, 1, 1)), ((0, 1, 1), (1, 0, 1, 1))]
     if tier == "thorough":
-        sweeps += [((0, 0, 0), (1, 1, 1, 0)), ((0, 1, 2), (1, 1, 1, 0)), ((0, 0, 1), (1, 1, 0, 1)), ((0, 1, 1), (0, 1, 1, 1)), ((0, 0, 2), (1, 1, 0, 1))]
+        sweeps += [((0, 0, 0), (1, 1, 1, 0)), ((0, 0, 1), (1, 1, 0, 1)), ((0, 1, 1), (0, 1, 1, 1))]
     for par, cnt in sweeps:
         for method in ("tdvp_ps", "tdvp_ps2"):
             for local in ("arbitrary", "identity"):
